@@ -11,19 +11,19 @@
  *   oracle          = canonical(result) == canonical(S[n+c])
  *
  * canonical() = the live bytes only (chaining value, counters, parameters, transform selector, the
- * first `fill` bytes of the block buffer).  That this abstraction is right is itself checked: every
- * transition and every final is executed twice, with all other bytes of the context (buffer tail,
+ * first `fill` bytes of the block buffer).  That this abstraction is right is itself checked: the
+ * transitions and every final are executed with all other bytes of the context (buffer tail,
  * scratch arrays, unused half of hash[], padding) set to 0x00 and to 0xA5; the results must agree.
  * As every transition into n+c lands on the same canonical context, by induction every composition
- * of every prefix into update calls (empty ones included) yields S[n], and `final` from S[n] (again
- * under both poisons) must give the reference digest of M[0..n) and leave the sensitive fields zero.
+ * of every prefix into update calls (empty ones included) yields S[n], and `final` from S[n] (under
+ * both poisons) must give the reference digest of M[0..n) and leave the sensitive fields zero.
  *
  * One-shot entry points (*_get_digest, *_get_digest_str) are run on every prefix and compared with
  * the same reference.  Reference = hashlib table generated at check time (expected.h); Streebog =
  * ref_streebog.c.
  *
  * H_LEVEL: 0 quick   : pattern 0: L = 2 blocks+1, alignments {0,1,3,4,8,16,31,32,63}; patterns 1-3: L = 1 block+1, {0,1,31}
- *          1 reduced : pattern 0: L = 3 blocks+1, the same 9 alignments;      patterns 1-3: L = 2 blocks+1, {0,1,31}
+ *          1 reduced : pattern 0: L = 3 blocks+1, the same 9 alignments;            patterns 1-3: L = 2 blocks+1, {0,1,31}
  *          2 full    : every pattern L = 4 blocks+1; pattern 0 with all alignments 0..63, patterns 1-3 with the 9
  * Both poisons are applied for the first H_BOTH (2; level 2: 8) alignments of the list - an aligned and
  * an unaligned source at every (n, c) - the remaining alignments alternate between the two.
@@ -79,7 +79,6 @@ aligns_for(int p, const int **al, int *nal) {
 #endif
 }
 
-
 static void *
 h_shared(size_t size) {
 	void *m = mmap(NULL, size, PROT_READ | PROT_WRITE, MAP_SHARED | MAP_ANONYMOUS, -1, 0);
@@ -90,15 +89,46 @@ h_shared(size_t size) {
 	return (m);
 }
 
-/* Build S[n] = init + force + ONE update(M, n) for n = 0..L in a child process (results come back
- * through shared memory).  0 = fine; -1 = the child reported an ASan error or died: the group is
- * skipped and the finding is printed (by shard 0 / a replay only, every shard sees the same thing). */
+#define LMAX_ALL	(4 * 128 + 1)
+/* the group being explored */
+static struct {
+	int	ai, v, p, nal;
+	const int *al;
+	size_t	L;
+	uint8_t	*S[2];		/* poisoned representatives of the current pattern: S[pz] + n * ctx_size */
+	uint8_t	*canon;		/* canon + n * HCANON_MAX */
+	size_t	*clen;
+	/* shared with the builder child, all patterns: index (p * (LMAX_ALL + 2) + n) */
+	uint8_t	*S_all[2], *canon_all;
+	size_t	*clen_all;
+} G;
+
+static void
+select_pattern(int p) {
+	size_t off = (size_t)p * (LMAX_ALL + 2);
+
+	G.p = p;
+	G.L = (size_t)lvl_blocks[p] * halgs[G.ai].B + 1;
+	G.S[0] = G.S_all[0] + off * halgs[G.ai].ctx_size;
+	G.S[1] = G.S_all[1] + off * halgs[G.ai].ctx_size;
+	G.canon = G.canon_all + off * HCANON_MAX;
+	G.clen = G.clen_all + off;
+	aligns_for(p, &G.al, &G.nal);
+}
+
+/* Build S[n] = init + force + ONE update(M, n) for every pattern and n = 0..L in a child process
+ * (results come back through shared memory), so that a crash in a plain single update is a finding
+ * of this (algorithm, transform) group and not the death of the shard.  0 = fine; -1 = the child
+ * reported an ASan error or died: the group is skipped (identically in every shard, so case
+ * numbering stays consistent) and the finding is printed by shard 0 / by a replay. */
 static int
-build_group(int ai, int v, int p, size_t L, const char *t_update, uint8_t **S, uint8_t *canon, size_t *clen) {
-	const halg_t *A = &halgs[ai];
+build_group(const char *t_update) {
+	const halg_t *A = &halgs[G.ai];
 	int reporter = (0 == vh_shard || NULL != vh_only_target), st = 0, pz;
-	volatile size_t *cur_n = clen + L + 1;	/* spare slot: where the child is */
+	volatile size_t *cur_n = G.clen_all + (LMAX_ALL + 1);	/* spare slots: where the child is */
+	volatile size_t *cur_p = G.clen_all + (LMAX_ALL + 2) + (LMAX_ALL + 1);
 	size_t n;
+	int p;
 	pid_t pid;
 
 	fflush(stdout);
@@ -112,25 +142,32 @@ build_group(int ai, int v, int p, size_t L, const char *t_update, uint8_t **S, u
 
 		if (!reporter && NULL == freopen("/dev/null", "w", stdout))
 			_exit(4);
+		signal(SIGSEGV, SIG_DFL);
+		signal(SIGBUS, SIG_DFL);
+		signal(SIGILL, SIG_DFL);
+		signal(SIGFPE, SIG_DFL);
 		vh_cur = vh_target_id(t_update);
 		vh_case_failed = 0;
-		for (n = 0; n <= L; n ++) {
-			void *base;
-			const uint8_t *src = h_src(ref_pat[p], n, 0, &base);
+		for (p = 0; p < REF_NPAT; p ++) {
+			select_pattern(p);
+			(*cur_p) = (size_t)p;
+			for (n = 0; n <= G.L; n ++) {
+				void *base;
+				const uint8_t *src = h_src(ref_pat[p], n, 0, &base);
 
-			(*cur_n) = n;
-			vh_desc("pat=%d: representative state, init + one update of n=%zu bytes", p, n);
-			vh_publish_desc();
-			memset(W, 0x5A, A->ctx_size);
-			A->init(W);
-			A->force(W, A->vname[v]);
-			if (n)
-				A->update(W, src, n);
-			free(base);
-			clen[n] = h_canon(A, W, 0, canon + n * HCANON_MAX);
-			for (pz = 0; pz < 2; pz ++) {
-				h_poison(A, W, 0, h_poisons[pz]);
-				memcpy(S[pz] + n * A->ctx_size, W, A->ctx_size);
+				(*cur_n) = n;
+				vh_desc("pat=%d: representative state, init + one update of n=%zu bytes", p, n);
+				memset(W, 0x5A, A->ctx_size);
+				A->init(W);
+				A->force(W, A->vname[G.v]);
+				if (n)
+					A->update(W, src, n);
+				free(base);
+				G.clen[n] = h_canon(A, W, 0, G.canon + n * HCANON_MAX);
+				for (pz = 0; pz < 2; pz ++) {
+					h_poison(A, W, 0, h_poisons[pz]);
+					memcpy(G.S[pz] + n * A->ctx_size, W, A->ctx_size);
+				}
 			}
 		}
 		fflush(stdout);
@@ -142,216 +179,220 @@ build_group(int ai, int v, int p, size_t L, const char *t_update, uint8_t **S, u
 		return (0);
 	if (reporter && !(WIFEXITED(st) && 3 == WEXITSTATUS(st))) {
 		vh_cur = vh_target_id(t_update);
-		vh_desc("pat=%d: representative state, init + one update of n=%zu bytes", p, (size_t)(*cur_n));
-		vh_publish_desc();
+		vh_desc("pat=%d: representative state, init + one update of n=%zu bytes", (int)(*cur_p), (size_t)(*cur_n));
 		vh_case_failed = 0;
 		if (WIFSIGNALED(st))
-			vh_fail("crash-in-single-update", "killed by signal %d", WTERMSIG(st));
+			vh_fail("fatal-signal-in-single-update", "killed by signal %d (%s)", WTERMSIG(st), strsignal(WTERMSIG(st)));
 		else
-			vh_fail("crash-in-single-update", "child exit status %d", WEXITSTATUS(st));
+			vh_fail("fatal-signal-in-single-update", "child exit status %d", WEXITSTATUS(st));
 	}
 	return (-1);
 }
 
+/* final from state n, both poisons */
+static int
+case_final(size_t n) {
+	const halg_t *A = &halgs[G.ai];
+	uint8_t want[64], *dg, *W;
+	char hex[2 * 64 + 8];	/* vh_hex wants 3 spare bytes */
+	int pz, bad = 0;
+
+	expected(G.ai, G.p, n, want);
+	for (pz = 0; pz < 2; pz ++) {
+		size_t nw;
+
+		W = (uint8_t *)h_ctx_alloc(A->ctx_size);
+		memcpy(W, G.S[pz] + n * A->ctx_size, A->ctx_size);
+		dg = (uint8_t *)malloc(A->hs);	/* exact size: a longer write hits the redzone */
+		memset(dg, 0xCC, A->hs);
+		A->final(W, dg);
+		h_transitions ++;
+		if (0 != memcmp(dg, want, A->hs)) {
+			vh_hex(hex, sizeof(hex), dg, A->hs);
+			vh_fail("digest", "dead-bytes=0x%02x got %s", h_poisons[pz], hex);
+			bad = 1;
+		}
+		nw = h_not_wiped(A, W, 0);
+		if (0 != nw) {
+			vh_fail("ctx-not-wiped", "dead-bytes=0x%02x: context byte at offset %zu is 0x%02x after final",
+			    h_poisons[pz], (nw - 1), W[nw - 1]);
+			bad = 1;
+		}
+		vh_outcome(dg, A->hs);
+		free(dg);
+		free(W);
+	}
+	return (bad);
+}
+
+/* transitions (n, c, a) for every alignment of the group */
+static int
+case_update(size_t n, size_t c) {
+	const halg_t *A = &halgs[G.ai];
+	uint8_t cbuf[HCANON_MAX], *W = (uint8_t *)h_ctx_alloc(A->ctx_size);
+	const uint8_t *wc = G.canon + (n + c) * HCANON_MAX;
+	int k, pz, bad = 0;
+
+	for (k = 0; k < G.nal; k ++) {
+		void *base;
+		const uint8_t *src = h_src(ref_pat[G.p] + n, c, G.al[k], &base);
+
+		for (pz = 0; pz < 2; pz ++) {
+			size_t len;
+
+			if (k >= H_BOTH && pz != (k & 1))
+				continue;
+			memcpy(W, G.S[pz] + n * A->ctx_size, A->ctx_size);
+			A->update(W, src, c);
+			h_transitions ++;
+			len = h_canon(A, W, 0, cbuf);
+			if (len != G.clen[n + c] || 0 != memcmp(cbuf, wc, len)) {
+				size_t d = 0;
+				while (d < len && d < G.clen[n + c] && cbuf[d] == wc[d])
+					d ++;
+				vh_fail("confluence", "a=%d dead-bytes=0x%02x: context differs from the "
+				    "single-update context of %zu bytes (canonical length %zu vs %zu, first "
+				    "difference at canonical byte %zu)", G.al[k], h_poisons[pz],
+				    (n + c), len, G.clen[n + c], d);
+				bad = 1;
+			}
+		}
+		free(base);
+	}
+	free(W);
+	return (bad);
+}
+
+/* *_get_digest (str = 0) / *_get_digest_str (str = 1) on the n-byte prefix, every alignment */
+static int
+case_oneshot(int ai, int p, size_t n, int str, const int *al, int nal) {
+	const halg_t *A = &halgs[ai];
+	uint8_t want[64];
+	char hex[2 * 64 + 8], whex[2 * 64 + 8];
+	int k, bad = 0;
+
+	expected(ai, p, n, want);
+	vh_hex(whex, sizeof(whex), want, A->hs);
+	for (k = 0; k < nal; k ++) {
+		void *base;
+		const uint8_t *src = h_src(ref_pat[p], n, al[k], &base);
+		size_t sz = 0xdead;
+		int with_size = (0 == (k & 1));	/* the size out-parameter is optional (the library tests for NULL) */
+
+		if (!str) {
+			uint8_t *dg = (uint8_t *)malloc(A->hs);
+
+			memset(dg, 0xCC, A->hs);
+			A->get_digest(src, n, dg, with_size ? &sz : NULL);
+			if (0 != memcmp(dg, want, A->hs)) {
+				vh_hex(hex, sizeof(hex), dg, A->hs);
+				vh_fail("digest", "a=%d got %s", al[k], hex);
+				bad = 1;
+			}
+			if (A->has_size_out && with_size && sz != A->hs) {
+				vh_fail("digest-size", "a=%d reported %zu", al[k], sz);
+				bad = 1;
+			}
+			free(dg);
+		} else {
+			/* 2*hs characters + the terminating NUL the function writes */
+			char *s = (char *)malloc(2 * A->hs + 1);
+
+			memset(s, 0x7e, 2 * A->hs + 1);
+			A->get_digest_str((const char *)src, n, s, with_size ? &sz : NULL);
+			if (0 != memcmp(s, whex, 2 * A->hs)) {
+				vh_fail("hex-digest", "a=%d got %.*s", al[k], (int)(2 * A->hs), s);
+				bad = 1;
+			}
+			if (A->has_size_out && with_size && sz != 2 * A->hs) {
+				vh_fail("digest-size", "a=%d reported %zu", al[k], sz);
+				bad = 1;
+			}
+			free(s);
+		}
+		free(base);
+	}
+	return (bad);
+}
 
 int
 main(int argc, char **argv) {
-	int ai, v, p, pz, k, nal;
-	const int *al;
-	size_t n, c, L, lmax_all = 4 * 128 + 1;
-	uint8_t *S[2], *canon, *W, cbuf[HCANON_MAX], want[64], *dg;
-	size_t *clen;
-	char hex[2 * 64 + 8];	/* vh_hex wants 3 spare bytes */
+	int ai, v, p, bad, str;
+	size_t n, c;
 
 	vh_init(argc, argv);
 	h_common_init();
-	canon = (uint8_t *)h_shared((lmax_all + 1) * HCANON_MAX);
-	clen = (size_t *)h_shared((lmax_all + 2) * sizeof(size_t));
+	h_install_handlers();
+	G.canon_all = (uint8_t *)h_shared(REF_NPAT * (LMAX_ALL + 2) * HCANON_MAX);
+	G.clen_all = (size_t *)h_shared(REF_NPAT * (LMAX_ALL + 2) * sizeof(size_t));
 
 	for (ai = 0; ai < HALG_COUNT; ai ++) {
 		const halg_t *A = &halgs[ai];
 
-		S[0] = (uint8_t *)h_shared((lmax_all + 1) * A->ctx_size);
-		S[1] = (uint8_t *)h_shared((lmax_all + 1) * A->ctx_size);
+		G.ai = ai;
+		G.S_all[0] = (uint8_t *)h_shared(REF_NPAT * (LMAX_ALL + 2) * A->ctx_size);
+		G.S_all[1] = (uint8_t *)h_shared(REF_NPAT * (LMAX_ALL + 2) * A->ctx_size);
 		for (v = 0; v < A->nvar; v ++) {
 			const char *t_update = h_name(A->pfx, "_update", A->sfx, A->vname[v]);
 			const char *t_final = h_name(A->pfx, "_final", A->sfx, A->vname[v]);
 
+			G.v = v;
+			if (0 != build_group(t_update))
+				continue;
 			for (p = 0; p < REF_NPAT; p ++) {
-				const uint8_t *M = ref_pat[p];
-
-				L = (size_t)lvl_blocks[p] * A->B + 1;
-				aligns_for(p, &al, &nal);
-
-				/* representatives S[n], their canonical form, and the two poisoned copies -
-				 * built in a forked child so that a crash in a plain single update is a finding
-				 * attributed to this group, not the death of the whole shard */
-				if (0 != build_group(ai, v, p, L, t_update, S, canon, clen))
-					continue;	/* identical in every shard: case numbering stays consistent */
+				select_pattern(p);
 				if (0 == vh_shard) {
-					for (n = 0; n <= L; n ++)
-						h_state_seen(ai, canon + n * HCANON_MAX, clen[n], (uint64_t)p);
+					for (n = 0; n <= G.L; n ++)
+						h_state_seen(ai, G.canon + n * HCANON_MAX, G.clen[n], (uint64_t)p);
 				}
-
-				/* final from every state */
-				for (n = 0; n <= L; n ++) {
-					int bad = 0;
-
+				for (n = 0; n <= G.L; n ++) {
 					if (!vh_begin(t_final))
 						continue;
-					vh_desc("pat=%d L=%zu n=%zu", p, L, n);
+					vh_desc("pat=%d L=%zu n=%zu", p, G.L, n);
 					vh_publish_desc();
-					expected(ai, p, n, want);
-					for (pz = 0; pz < 2; pz ++) {
-						size_t nw;
-
-						W = (uint8_t *)h_ctx_alloc(A->ctx_size);
-						memcpy(W, S[pz] + n * A->ctx_size, A->ctx_size);
-						dg = (uint8_t *)malloc(A->hs);
-						memset(dg, 0xCC, A->hs);
-						A->final(W, dg);
-						h_transitions ++;
-						if (0 != memcmp(dg, want, A->hs)) {
-							vh_hex(hex, sizeof(hex), dg, A->hs);
-							vh_fail("digest", "dead-bytes=0x%02x got %s", h_poisons[pz], hex);
-							bad = 1;
-						}
-						nw = h_not_wiped(A, W, 0);
-						if (0 != nw) {
-							vh_fail("ctx-not-wiped", "dead-bytes=0x%02x: context byte at offset %zu is 0x%02x after final",
-							    h_poisons[pz], (nw - 1), W[nw - 1]);
-							bad = 1;
-						}
-						vh_outcome(dg, A->hs);
-						free(dg);
-						free(W);
-					}
+					H_GUARDED(bad, case_final(n));
 					if (!bad)
 						vh_nontrivial();
 				}
-
-				/* every transition (n, c, a) */
-				for (n = 0; n <= L; n ++) {
-					for (c = 0; c <= L - n; c ++) {
-						int bad = 0;
-
+				for (n = 0; n <= G.L; n ++) {
+					for (c = 0; c <= G.L - n; c ++) {
 						if (!vh_begin(t_update))
 							continue;
-						vh_desc("pat=%d L=%zu n=%zu c=%zu", p, L, n, c);
+						vh_desc("pat=%d L=%zu n=%zu c=%zu", p, G.L, n, c);
 						vh_publish_desc();
-						W = (uint8_t *)h_ctx_alloc(A->ctx_size);
-						for (k = 0; k < nal; k ++) {
-							void *base;
-							const uint8_t *src = h_src(M + n, c, al[k], &base);
-
-							for (pz = 0; pz < 2; pz ++) {
-								size_t len;
-
-								if (k >= H_BOTH && pz != (k & 1))
-									continue;
-								memcpy(W, S[pz] + n * A->ctx_size, A->ctx_size);
-								A->update(W, src, c);
-								h_transitions ++;
-								len = h_canon(A, W, 0, cbuf);
-								if (len != clen[n + c] ||
-								    0 != memcmp(cbuf, canon + (n + c) * HCANON_MAX, len)) {
-									size_t d = 0;
-									while (d < len && d < clen[n + c] &&
-									    cbuf[d] == canon[(n + c) * HCANON_MAX + d])
-										d ++;
-									vh_fail("confluence", "a=%d dead-bytes=0x%02x: context differs from the "
-									    "single-update context of %zu bytes (canonical length %zu vs %zu, first "
-									    "difference at canonical byte %zu)", al[k], h_poisons[pz],
-									    (n + c), len, clen[n + c], d);
-									bad = 1;
-								}
-							}
-							free(base);
-						}
-						free(W);
+						H_GUARDED(bad, case_update(n, c));
 						if (!bad && 0 != c)
 							vh_nontrivial();
 					}
 				}
 			}
+			h_flush_model(0 == vh_shard && NULL == vh_only_target);
 		}
 
 		/* one-shot entry points on every prefix (transform = whatever init selects on this CPU) */
-		{
-			const char *t_gd = h_name(A->pfx, "_get_digest", A->sfx, NULL);
-			const char *t_gds = h_name(A->pfx, "_get_digest_str", A->sfx, NULL);
+		for (str = 0; str < 2; str ++) {
+			const char *t = h_name(A->pfx, str ? "_get_digest_str" : "_get_digest", A->sfx, NULL);
 
 			for (p = 0; p < REF_NPAT; p ++) {
-				L = (size_t)lvl_blocks[p] * A->B + 1;
-				aligns_for(p, &al, &nal);
+				size_t L = (size_t)lvl_blocks[p] * A->B + 1;
+
+				/* (G.al/G.nal: no address-taken block-scope locals around sigsetjmp - gcc's
+				 * use-after-scope instrumentation misfires on them) */
+				aligns_for(p, &G.al, &G.nal);
 				for (n = 0; n <= L; n ++) {
-					int own_gd = vh_begin(t_gd), bad = 0;
-
-					if (own_gd) {
-						vh_desc("pat=%d n=%zu", p, n);
-						vh_publish_desc();
-						expected(ai, p, n, want);
-						for (k = 0; k < nal; k ++) {
-							void *base;
-							const uint8_t *src = h_src(ref_pat[p], n, al[k], &base);
-							size_t dsz = 0xdead;
-
-							dg = (uint8_t *)malloc(A->hs);
-							memset(dg, 0xCC, A->hs);
-							/* the size out-parameter is optional (NULL is tested by the library) */
-							A->get_digest(src, n, dg, (k & 1) ? NULL : &dsz);
-							if (0 != memcmp(dg, want, A->hs)) {
-								vh_hex(hex, sizeof(hex), dg, A->hs);
-								vh_fail("digest", "a=%d got %s", al[k], hex);
-								bad = 1;
-							}
-							if (A->has_size_out && 0 == (k & 1) && dsz != A->hs) {
-								vh_fail("digest-size", "a=%d reported %zu", al[k], dsz);
-								bad = 1;
-							}
-							free(dg);
-							free(base);
-						}
-						if (!bad)
-							vh_nontrivial();
-					}
-					bad = 0;
-					if (vh_begin(t_gds)) {
-						char whex[2 * 64 + 8];
-
-						vh_desc("pat=%d n=%zu", p, n);
-						vh_publish_desc();
-						expected(ai, p, n, want);
-						vh_hex(whex, sizeof(whex), want, A->hs);
-						for (k = 0; k < nal; k ++) {
-							void *base;
-							const uint8_t *src = h_src(ref_pat[p], n, al[k], &base);
-							size_t ssz = 0xdead;
-							/* 2*hs characters + the terminating NUL the function writes */
-							char *s = (char *)malloc(2 * A->hs + 1);
-
-							memset(s, 0x7e, 2 * A->hs + 1);
-							A->get_digest_str((const char *)src, n, s, (k & 1) ? NULL : &ssz);
-							if (0 != memcmp(s, whex, 2 * A->hs)) {
-								vh_fail("hex-digest", "a=%d got %.*s", al[k], (int)(2 * A->hs), s);
-								bad = 1;
-							}
-							if (A->has_size_out && 0 == (k & 1) && ssz != 2 * A->hs) {
-								vh_fail("digest-size", "a=%d reported %zu", al[k], ssz);
-								bad = 1;
-							}
-							free(s);
-							free(base);
-						}
-						if (!bad)
-							vh_nontrivial();
-					}
+					if (!vh_begin(t))
+						continue;
+					vh_desc("pat=%d n=%zu", p, n);
+					vh_publish_desc();
+					H_GUARDED(bad, case_oneshot(ai, p, n, str, G.al, G.nal));
+					if (!bad)
+						vh_nontrivial();
 				}
 			}
 		}
-		munmap(S[0], (lmax_all + 1) * A->ctx_size);
-		munmap(S[1], (lmax_all + 1) * A->ctx_size);
+		munmap(G.S_all[0], REF_NPAT * (LMAX_ALL + 2) * A->ctx_size);
+		munmap(G.S_all[1], REF_NPAT * (LMAX_ALL + 2) * A->ctx_size);
 	}
-	h_finish_model(0 == vh_shard && NULL == vh_only_target);
+	h_flush_model(0 == vh_shard && NULL == vh_only_target);
 	return (vh_finish());
 }
